@@ -1,0 +1,46 @@
+//go:build verif
+
+package pdf
+
+import (
+	"fmt"
+	"sync/atomic"
+)
+
+// verifYieldHook, if set, is called at the scheduling points of the
+// Extractor's cache protocol which no user callback reaches.
+var verifYieldHook atomic.Pointer[func(point string)]
+
+// VerifSetYieldHook installs (or, with nil, removes) the scheduling hook.
+// This function only exists in builds with the "verif" tag.
+func VerifSetYieldHook(f func(point string)) {
+	if f == nil {
+		verifYieldHook.Store(nil)
+		return
+	}
+	verifYieldHook.Store(&f)
+}
+
+func verifYield(point string) {
+	if f := verifYieldHook.Load(); f != nil {
+		(*f)(point)
+	}
+}
+
+// VerifCacheSnapshot returns the contents of the Extractor's cache, keyed by
+// "<ref> <type>", and the keys of the decodes in progress.
+func VerifCacheSnapshot(x *Extractor) (cache map[string]any, wip []string) {
+	x.mu.Lock()
+	defer x.mu.Unlock()
+	cache = make(map[string]any, len(x.cache))
+	for k, v := range x.cache {
+		cache[fmt.Sprintf("%d %d %s", k.ref.Number(), k.ref.Generation(), k.tp)] = v
+	}
+	for k := range x.wip {
+		wip = append(wip, fmt.Sprintf("%d %d %s", k.ref.Number(), k.ref.Generation(), k.tp))
+	}
+	return cache, wip
+}
+
+// VerifExtractor returns the Extractor a Cursor reads through.
+func VerifExtractor(c Cursor) *Extractor { return c.x }
